@@ -379,3 +379,7 @@ Proof.
   - injection A as ->. right. split; [exact N|]. apply zero_step_sound. exact Z.
   - injection A as ->. left. auto.
 Qed.
+
+(* ---------- C18: logging context ---------- *)
+Lemma log_contexts_private base rs : log_contexts false base rs = map (fun r => base ++ ids_of r) rs.
+Proof. induction rs as [|r t IH]; cbn [log_contexts map]; [reflexivity|]. rewrite IH. reflexivity. Qed.
